@@ -1,11 +1,13 @@
 //! Driver for the stream muxers: mplex frame codec (C25), mplex limits against a raw frame
 //! injector (C26), two-endpoint substream delivery for mplex and yamux (C24).
 mod codec;
+mod limits;
 
 fn main() {
     let a = vcommon::Args::parse();
     match a.mode.as_str() {
         "codec" => codec::main(&a),
+        "limits" => limits::main(&a),
         m => {
             eprintln!("unknown mode {m}");
             std::process::exit(2)
